@@ -411,6 +411,7 @@ func checkC10(c *Check) {
 	c10NoPooledBuffer(c, "R10")
 	c10EnvelopeIsValidUTF8(c, "R11")
 	c02ReportID(c, "R13")
+	c10CopyIsDeepForTables(c, "R14")
 
 	// ---- R3e: per-message flags are finalised after MAIL (TLS-Required override at DATA, quarantine by the checks), so
 	// every layer down to the spool must keep the very metadata object it was given
